@@ -326,4 +326,35 @@ theorem cli_close_wait_is_timed (s : St) (t : Tid) (hb : scanClose s.buf = none)
   simp only [hb']
   simp [armTmo, setT, he, hw, park, Pc.isDrain, mem_insertTimer]
 
+/-! ## heartbeat: the timer fires while a reset is pending (kernel-checked runs of the model)
+
+`dead_peer_detected` proper — "in every reachable quiescent state with a heartbeat configured the session is
+closed or closing" — is not proved; it is judged by the direct oracle on the real objects
+(`C13/dead-peer-undetected/*`).  What is checked here is the delicate schedule: the heartbeat timer becomes
+due, a peer frame is processed first (`_on_data_received` sets `_need_heartbeat_reset`), `_send_heartbeat`
+returns early, `_flush_heartbeat_reset` must re-arm — which it only does because `_send_heartbeat` cleared
+`_heartbeat_cb` *before* its early return. -/
+
+def hbCfg (side : Side) : Cfg :=
+  { side := side, heartbeat := some 2000, closeTimeout := 1500,
+    limit := match side with | .server => 65536 | .client => Gen.C13.defaultChunkSize }
+
+/-- clock jumps to the heartbeat deadline, a TEXT frame is processed first, heartbeat callback, reset flush -/
+def hbCoincidence : List Label := [.tick, .peer .text, .tick, .tick]
+
+/-- after the coincidence the heartbeat is armed again for `now + heartbeat` on both sides … -/
+theorem heartbeat_rearmed_after_coincidence :
+    (run (init (hbCfg .server)) hbCoincidence).timers = [(4000, .sendHb)] ∧
+    (run (init (hbCfg .client)) hbCoincidence).timers = [(4000, .sendHb)] := by decide +kernel
+
+/-- … and a peer that then stays silent is detected: PING at 4000 ms, no PONG by 5000 ms, session closed with
+1006, the transport asked to close, nothing left pending. -/
+theorem silent_peer_after_coincidence_is_detected :
+    let quiet : List Label := List.replicate 8 .tick
+    let s := run (init (hbCfg .server)) (hbCoincidence ++ quiet)
+    let c := run (init (hbCfg .client)) (hbCoincidence ++ quiet)
+    s.frames = [.ping] ∧ s.closed = true ∧ s.closeCode = some 1006 ∧ s.trClosing = true ∧ s.now = 5000 ∧
+    c.frames = [.ping] ∧ c.closed = true ∧ c.closeCode = some 1006 ∧ c.trClosing = true ∧ c.now = 5000 := by
+  decide +kernel
+
 end Aio.C13
